@@ -121,6 +121,12 @@ class Report:
         cur = self.violations.get(viol.key())
         if cur is None:
             self.violations[viol.key()] = viol
+        elif viol.replay is not None and viol.replay != cur.replay:
+            # further witnesses of the same signature (a few): used when the first one does not reproduce from its
+            # replay data because state leaked into it from another execution in the same worker process
+            alts = cur.__dict__.setdefault("alternates", [])
+            if len(alts) < 6:
+                alts.append(viol)
 
     def add_all(self, viols):
         for v in viols:
